@@ -33,6 +33,7 @@ type Origin struct {
 	beh  map[string]Behaviour
 	hits map[string]*int64
 	log  []string
+	gate map[string]chan struct{} // path -> requests wait (after being counted) until the channel is closed
 }
 
 func NewOrigin() *Origin {
@@ -50,8 +51,15 @@ func (o *Origin) handle(w http.ResponseWriter, r *http.Request) {
 		o.hits[r.URL.Path] = h
 	}
 	o.log = append(o.log, r.URL.Path)
+	g := o.gate[r.URL.Path]
 	o.mu.Unlock()
 	atomic.AddInt64(h, 1)
+	if g != nil {
+		select {
+		case <-g:
+		case <-time.After(10 * time.Second):
+		}
+	}
 	if !ok {
 		w.WriteHeader(404)
 		return
@@ -74,6 +82,25 @@ func (o *Origin) handle(w http.ResponseWriter, r *http.Request) {
 		w.Write(b.Body)
 	default:
 		w.Write(b.Body)
+	}
+}
+
+// Hold makes every request for path wait (after it has been counted) until the returned function is called.
+func (o *Origin) Hold(path string) (release func()) {
+	g := make(chan struct{})
+	o.mu.Lock()
+	if o.gate == nil {
+		o.gate = map[string]chan struct{}{}
+	}
+	o.gate[path] = g
+	o.mu.Unlock()
+	return func() {
+		o.mu.Lock()
+		if o.gate[path] == g {
+			delete(o.gate, path)
+		}
+		o.mu.Unlock()
+		close(g)
 	}
 }
 
